@@ -115,7 +115,8 @@ def generate(rng: random.Random, tier: str, seed: int) -> dict:
             c["seed"] = rng.getrandbits(32)
         elif kind == "runspace_malformed":
             c["how"] = rng.choice(["unequal_lengths", "duplicate_keys", "bad_mode", "bad_combine", "zip_blocks_unequal",
-                                   "duplicate_key_via_source", "duplicate_key_via_source_rename", "duplicate_key_context_vs_source"])
+                                   "duplicate_key_via_source", "duplicate_key_via_source_rename", "duplicate_key_context_vs_source",
+                                   "by_position_empty_source", "by_position_empty_context"])
         elif kind == "runspace_over_cap":
             c["how"] = rng.choice(["block_max_runs", "cli_max_runs", "block_max_runs_0", "cli_max_runs_0", "cli_max_runs_product_minus_1"])
             c["via_rs_file"] = rng.random() < 0.3       # the run space itself comes from --run-space-file
@@ -270,6 +271,12 @@ def run_case(sc: dict, c: dict, w, stats: dict, idx: int) -> list[dict]:
         elif how == "duplicate_key_context_vs_source":
             extra_files["dup.csv"] = "rs_a\n5.0\n"
             run_space = {"blocks": [{"mode": "by_position", "context": {"rs_a": [1.0]}, "source": {"format": "csv", "path": "dup.csv"}}]}
+        elif how == "by_position_empty_source":
+            extra_files["empty.csv"] = "rs_b\n"            # header only: the source side expands to zero runs
+            run_space = {"blocks": [{"mode": "by_position", "context": {"rs_a": [1.0, 2.0, 3.0]}, "source": {"format": "csv", "path": "empty.csv"}}]}
+        elif how == "by_position_empty_context":
+            extra_files["three.csv"] = "rs_b\n1.0\n2.0\n3.0\n"
+            run_space = {"blocks": [{"mode": "by_position", "context": {"rs_a": []}, "source": {"format": "csv", "path": "three.csv"}}]}
         elif how == "bad_mode":
             run_space = {"blocks": [{"mode": "zipper", "context": {"rs_a": [1.0]}}]}
         elif how == "bad_combine":
